@@ -241,6 +241,7 @@ type Env struct {
 	ReadCheck    bool // verify all live pages after every transaction end
 	Ops          int
 	Dead         bool  // instance unusable (engine stops applying ops)
+	LeakCheck    bool  // CheckDisk also reports pages that nobody owns
 	ExtentCap    int64 // after a shrink: max(previous extent, new limit); 0 = no promise active
 	OverflowUsed bool  // an overflow-enabled transaction ran since
 	LastOpLog    int   // disk log length before the most recent operation (set by the replayer)
@@ -451,6 +452,9 @@ func (e *Env) CheckDisk(m State, when string) {
 	}
 	for _, p := range st.Check(m.IDs()) {
 		e.violate("diskfmt/partition", "%s: %s", when, p)
+	}
+	if len(st.Unowned) > 0 {
+		e.violate("diskfmt/leak", "%s: pages %v lie below the file end (data end %d, meta end %d) but are neither live, on a free list, nor metadata", when, st.Unowned, st.Header.DataEnd, st.Header.MetaEnd)
 	}
 }
 
